@@ -243,7 +243,7 @@ VOLUME = {   # tier -> (L1 cases, serial, fork, spawn)
     'thorough': (6000, 400, 120, 30),
 }
 L2_VOLUME = {'quick': 24, 'thorough': 250}     # scripted real ProcessExecutor runs (C04, C05, C10, C11)
-L2_PROPS = {'C04': ['worker-limit-exceeded'], 'C05': ['idle-slot', 'dead-not-detected'], 'C11': ['dead-not-detected'], 'C10': ['started-after-failure']}
+L2_PROPS = {'C01': [], 'C04': ['worker-limit-exceeded'], 'C05': ['idle-slot', 'dead-not-detected'], 'C11': ['dead-not-detected'], 'C10': ['started-after-failure']}
 
 
 def nontrivial(case, obs):
@@ -419,6 +419,8 @@ def run(prop, report, tier, seed, replay=None):
                     c['specs'] = [['tuple', []] for _ in range(c['n'])]
                     c['reads'] = [[] for _ in range(c['n'])]
                     c['req'] = [[t, 0] for t in range(c['n'])]
+                if prop == 'C01':
+                    c['p_kill'] = 0.0           # every task succeeds
                 l2cases.append(c)
             if prop == 'C10':
                 # stop at the first failure: independent tasks queue up behind one or two worker slots, the first ones fail (by
